@@ -297,7 +297,56 @@ func c17Run(ctx *core.Ctx, idx int, dotu bool, steps int) core.Result {
 		fid := uint32(20)
 		timesCheck := "" // "" | "atime-only" | "length+atime": extra judgement on modification times after the step
 		timesFile := ""
-		switch k := r.Intn(16); k {
+		kk := r.Intn(16)
+		if step%20 == 19 {
+			kk = 16
+		}
+		switch k := kk; k {
+		case 16: // a fid whose path stopped resolving: the directory above it was replaced, behind the server's back
+			var deep []string
+			for _, f := range listing("file") {
+				if strings.Contains(f, "/") {
+					deep = append(deep, f)
+				}
+			}
+			if len(deep) == 0 {
+				continue
+			}
+			f := deep[r.Intn(len(deep))]
+			pd := filepath.Dir(f)
+			if !walk(fid, f) {
+				continue
+			}
+			how := []string{"parent-now-a-file", "parent-now-a-link-loop", "parent-gone"}[r.Intn(3)]
+			for _, root := range []string{e.root, twin} {
+				_ = os.Rename(filepath.Join(root, pd), filepath.Join(root, fmt.Sprintf("%s.moved%d", pd, step)))
+				switch how {
+				case "parent-now-a-file":
+					_ = os.WriteFile(filepath.Join(root, pd), []byte("not a directory"), 0o644)
+				case "parent-now-a-link-loop":
+					_ = os.Symlink(filepath.Base(pd), filepath.Join(root, pd))
+				}
+			}
+			for k := range mtimes {
+				if k == pd || strings.HasPrefix(k, pd+"/") {
+					delete(mtimes, k)
+				}
+			}
+			before = snapshot(e.root)
+			if r.Intn(2) == 0 {
+				op, argc = "remove-stale", how
+				rep = rw.rpc(&wire.Msg{Type: wire.Tremove, Fid: fid})
+				perr = os.Remove(filepath.Join(twin, f))
+				fid = 0
+			} else {
+				op, argc = "open-stale", how
+				rep = rw.rpc(&wire.Msg{Type: wire.Topen, Fid: fid, Mode: 0})
+				var tf *os.File
+				tf, perr = os.Open(filepath.Join(twin, f))
+				if tf != nil {
+					tf.Close()
+				}
+			}
 		case 14, 15: // wstat that sets the access time and leaves the modification time alone, alone or with a length
 			kind := "file"
 			if dotu && r.Intn(3) == 0 {
